@@ -123,3 +123,11 @@ Theorem C12_insert_point_never_crashes : forall s doc pos ty,
   exists answer, insert_point s doc pos ty = Ok answer.
 Proof. exact insert_point_never_crashes. Qed.
 Print Assumptions C12_insert_point_never_crashes.
+
+(* lift_target: for a node range over a valid document (two resolved positions and a depth both reach - what
+   ResolvedPos.block_range builds) it returns an answer *)
+Theorem C12_lift_target_never_crashes : forall s r,
+  VP s (nr_from r) -> VP s (nr_to r) -> nr_depth r <= rp_depth (nr_from r) -> nr_depth r <= rp_depth (nr_to r) ->
+  exists answer, lift_target s r = Ok answer.
+Proof. exact lift_target_never_crashes. Qed.
+Print Assumptions C12_lift_target_never_crashes.
